@@ -555,23 +555,23 @@ def rel_bounds(rng, c, tags, integer=True):
     r = rng.random()
     def s(x):
         return None if x is None else num_str(Fraction(x))
-    if r < 0.10:
+    if r < 0.12:
         return [None, None]
-    if r < 0.20:
+    if r < 0.24:
         tags.append('lower_bound_hit'); return [s(c), None]
-    if r < 0.30:
+    if r < 0.36:
         tags.append('upper_bound_hit'); return [None, s(c)]
-    if r < 0.40:
+    if r < 0.48:
         tags.append('lower_bound_hit'); tags.append('upper_bound_hit'); tags.append('equal_bounds'); return [s(c), s(c)]
-    if r < 0.50:
+    if r < 0.55:
         tags.append('just_below'); return [s(c + step), rng.choice([None, s(c + 3)])]
-    if r < 0.60:
+    if r < 0.62:
         tags.append('just_above'); return [rng.choice([None, s(c - 3)]), s(c - step)]
-    if r < 0.68:
+    if r < 0.67:
         tags.append('crossing_bounds'); return [s(c + step), s(c)] if rng.random() < 0.5 else [s(c), s(c - step)]
-    if r < 0.76:
+    if r < 0.72:
         tags.append('equal_bounds'); k = c + rng.choice([-1, 1]) * step; return [s(k), s(k)]
-    if r < 0.88:
+    if r < 0.86:
         tags.append('lower_bound_hit'); return [s(c), s(c + rng.randint(0, 2))]
     tags.append('upper_bound_hit'); return [s(c - rng.randint(0, 2)), s(c)]
 
@@ -603,8 +603,8 @@ def fix_dict(e):
     return e
 
 
-def gen_simple(rng, tags, hashable=False):
-    nom = gen_nom(rng)
+def gen_simple(rng, tags, hashable=False, nom=None):
+    nom = nom or gen_nom(rng)
     r = rng.random()
     if r < 0.6 and admitted(nom):
         vote = rng.choice(admitted(nom))
@@ -629,8 +629,8 @@ def mutate_container(rng, e, key, tags, hashable):
     return {k: xs}
 
 
-def gen_approval(rng, tags, hashable=False):
-    nom = gen_nom(rng)
+def gen_approval(rng, tags, hashable=False, nom=None):
+    nom = nom or gen_nom(rng)
     k = rng.choice([0, 1, 1, 2, 2, 3, 3, 4, 5])
     cands = pick_cands(rng, nom, k)
     vote = {'f': cands}
@@ -655,8 +655,8 @@ def gen_approval(rng, tags, hashable=False):
     return {'vt': 'approval', 'count': count, 'nom': nom}, vote
 
 
-def gen_ranked(rng, tags, hashable=False):
-    nom = gen_nom(rng)
+def gen_ranked(rng, tags, hashable=False, nom=None):
+    nom = nom or gen_nom(rng)
     nranks = rng.choice([0, 1, 2, 2, 3, 3, 4, 5])
     sizes = [rng.choice([1, 1, 1, 1, 2, 2, 3, 0]) for _ in range(nranks)]
     pool = pick_cands(rng, nom, 20)
@@ -741,8 +741,8 @@ LEVEL_SETS = [[N(0), N(1), N(2), N(3)], [N(-1), N(0), N(1)], [S(8), S(9)], [S(6)
               [None, N(1)], []]
 
 
-def gen_score(rng, tags, vt, hashable=False):
-    nom = gen_nom(rng)
+def gen_score(rng, tags, vt, hashable=False, nom=None):
+    nom = nom or gen_nom(rng)
     n = rng.choice([0, 1, 1, 2, 2, 3, 3, 4])
     cands = pick_cands(rng, nom, n)
     if vt == 'enum':
@@ -914,33 +914,43 @@ def directed(rng):
     return out
 
 
+def _gen_vt(rng, tags, vt, hashable, nom=None):
+    if vt == 'simple':
+        return gen_simple(rng, tags, hashable, nom)
+    if vt == 'approval':
+        return gen_approval(rng, tags, hashable, nom)
+    if vt == 'ranked':
+        return gen_ranked(rng, tags, hashable, nom)
+    return gen_score(rng, tags, vt, hashable, nom)
+
+
+def _loosen(rng, val):
+    """drop some of the bounds of a configuration (so that several independently drawn ballots can be valid)"""
+    val = dict(val)
+    for key in ('count', 'total', 'n', 'range'):
+        if key in val and rng.random() < 0.7:
+            val[key] = [None, None]
+    for key in ('rank', 'sum'):
+        if key in val and rng.random() < 0.7:
+            val[key] = {'all': [None, '3']} if key == 'rank' else {'all': [None, None]}
+    return val
+
+
 def gen_eliminate(rng, tags):
     vt = rng.choice(['simple', 'approval', 'ranked', 'ranked', 'enum', 'range'])
-    # one configuration, several ballots generated for configurations of the same type (so most are near-valid)
-    t0 = []
-    if vt == 'simple':
-        val, _ = gen_simple(rng, t0, True)
-    elif vt == 'approval':
-        val, _ = gen_approval(rng, t0, True)
-    elif vt == 'ranked':
-        val, _ = gen_ranked(rng, t0, True)
-    else:
-        val, _ = gen_score(rng, t0, vt, True)
+    # one configuration; the ballots are drawn for the same vote type and (mostly) the same nominator
+    val, _ = _gen_vt(rng, [], vt, True)
+    if rng.random() < 0.6:
+        val = _loosen(rng, val)
     votes = []
     for _ in range(rng.randint(1, 7)):
-        t1 = []
-        if vt == 'simple':
-            v2, vote = gen_simple(rng, t1, True)
-        elif vt == 'approval':
-            v2, vote = gen_approval(rng, t1, True)
-        elif vt == 'ranked':
-            v2, vote = gen_ranked(rng, t1, True)
-        else:
-            v2, vote = gen_score(rng, t1, vt, True)
-        if v2['nom'] != val['nom'] and rng.random() < 0.7:
-            # re-draw the candidates under the shared nominator by substitution of admitted ones is not needed:
-            # ballots for another nominator are simply (mostly) invalid ones
-            pass
+        nom = val['nom'] if rng.random() < 0.9 else None
+        v2, vote = _gen_vt(rng, [], vt, True, nom)
+        if vt == 'enum' and rng.random() < 0.8:
+            # re-draw the scores from the shared levels
+            if vote is not None and 'f' in vote and val['levels']:
+                vote = {'f': [{'t': [it['t'][0], rng.choice(val['levels'])]} if (it is not None and 't' in it and len(it['t']) == 2) else it
+                              for it in vote['f']]}
         if not hashable_enc(vote):
             continue
         cnt = rng.choice([1, 2, 3, 5, 10, Fraction(7, 2), 10 ** 20])
